@@ -50,7 +50,7 @@ func allProps() []PropSpec {
 				{Func: "ZZ_C03_CookieAttr", Pkg: "pkg/protocol", Quick: map[string]int{"L": 8, "V": 2}, Thorough: map[string]int{"L": 11, "V": 3}, Covers: []string{"reached-end", "parsed-ok"}},
 				{Func: "ZZ_C03_ReqCookies", Pkg: "pkg/protocol", Quick: map[string]int{"N": 5}, Thorough: map[string]int{"N": 7}, Covers: []string{"reached-end"}},
 				{Func: "ZZ_C03_Trailers", Pkg: "pkg/protocol", Quick: map[string]int{"N": 4}, Thorough: map[string]int{"N": 5}, Covers: []string{"reached-end"}},
-				{Func: "ZZ_C03_Boundary", Pkg: "pkg/protocol", Quick: map[string]int{"N": 6}, Thorough: map[string]int{"N": 8}, Covers: []string{"reached-end"}},
+				{Func: "ZZ_C03_Boundary", Pkg: "pkg/protocol", Quick: map[string]int{"N": 6}, Thorough: map[string]int{"N": 8}, Covers: []string{"reached-end", "boundary-found"}},
 				{Func: "ZZ_C03_ParseUint", Pkg: "pkg/protocol", Quick: map[string]int{"N": 6}, Thorough: map[string]int{"N": 10}, Covers: []string{"reached-end", "parsed"}},
 				{Func: "ZZ_C03_HexInt", Pkg: "pkg/protocol/http1", Quick: map[string]int{"L": 17}, Thorough: map[string]int{"L": 20}, Covers: []string{"reached-assert", "parsed"}},
 				{Func: "ZZ_C03_CLI", Pkg: "pkg/protocol/http1/resp", Quick: map[string]int{"W": 1}, Thorough: map[string]int{"W": 2}, Covers: []string{"reached-end", "accepted", "rejected"}, Note: "client response read path: one (two) symbolic bytes at every position of six response shapes"},
@@ -123,6 +123,7 @@ func allProps() []PropSpec {
 				{Func: "ZZ_C12_H1", Pkg: "pkg/route", Quick: map[string]int{"N": 5}, Thorough: map[string]int{"N": 7}, Covers: []string{"reached-assert", "some-abort"}},
 				{Func: "ZZ_C12_H2", Pkg: "pkg/route", Covers: []string{"reached-assert", "matched"}},
 				{Func: "ZZ_C12_H3", Pkg: "pkg/route", Covers: []string{"reached-assert"}},
+				{Func: "ZZ_C12_H4", Pkg: "pkg/route", Covers: []string{"reached-assert"}, Note: "Any() routes under engine+group middleware for all nine methods; custom NoRoute/NoMethod installed before or after Use"},
 			},
 			Assumptions: []string{"chains up to N handlers over the seven behaviours of the property; group nesting depth <= 2 below the engine; Engine built without a transport and ServeHTTP called directly"},
 		},
@@ -178,6 +179,9 @@ func allProps() []PropSpec {
 				{Func: "ZZ_C10_H2", Pkg: "pkg/protocol/http1", Covers: []string{"reached-assert", "waited-and-timed-out"}, Unwind: 5000,
 					GoPolicy: map[string]string{"(*github.com/cloudwego/hertz/pkg/protocol/http1.HostClient).connsCleaner": "skip"},
 					Note: "wait-for-free-connection path, sequentially: the waiter's timer fires when nothing else can happen; no waiter left behind; released connection reused"},
+				{Func: "ZZ_C10_H3", Pkg: "pkg/protocol/http1", Quick: map[string]int{"M": 3}, Thorough: map[string]int{"M": 4}, Covers: []string{"reached-assert", "connection-reused", "no-free-connection", "stream-left-open"}, Unwind: 5000, MaxSteps: 4000000,
+					GoPolicy: map[string]string{"(*github.com/cloudwego/hertz/pkg/protocol/http1.HostClient).connsCleaner": "skip"},
+					Note: "response streaming: M calls x five response framings x body read or not x stream closed once / twice / left open (later calls then wait and time out); pool invariant after every call"},
 			},
 			Assumptions: []string{"sequential histories only: M calls one after another against a scripted peer; all goroutine interleavings, the waiter queue under contention, real timeouts and 'returns no later than' clauses are outside this technique", "fault alphabet per exchange: ok keep-alive, ok + Connection: close, close before first byte, close mid-header, close mid-body, dial error, write error, context already cancelled; MaxConns 1..2; MaxConnWaitTimeout = 0; MaxConnDuration 0 or expired"},
 		},
